@@ -1,0 +1,21 @@
+//go:build verif
+
+package mutable
+
+// Contracts for /verif (gvc). Comment-only file; see /verif/DESIGN.md §5 C02.
+
+//@ prop C02
+
+// When a series is in both the active table and the table being flushed, the merge takes the active
+// (newer) record as `newRec`, in both read directions: the newer acknowledged value wins.
+//@ func (*MemTables).Values
+//@   requires m != nil && m.snapshotTbl != m.activeTbl
+//@   ghost snapR Ptr = nil
+//@   ghost actR Ptr = nil
+//@   call getValues
+//@     set snapR = (arg0 == m.snapshotTbl ? ret0 : snapR)
+//@     set actR = (arg0 == m.activeTbl ? ret0 : actR)
+//@   call (*Record).MergeRecord
+//@     requires arg0 == actR && arg1 == snapR
+//@   call (*Record).MergeRecordDescend
+//@     requires arg0 == actR && arg1 == snapR
